@@ -12,7 +12,7 @@ export const SIGMA = [
   ['a', 'a', 'a'], ['b', 'b', 'b'], ['&amp;', '&', 'amp'],
 ];
 export const POSITIONS = ['only', 'beforeExpr', 'afterExpr', 'betweenExpr', 'betweenEl'];
-const HOSTS = ['b', 'fragShort', 'Fragment', 'KeepAlive', 'custom', 'customUpper', 'customUnderscore'];
+const HOSTS = ['b', 'fragShort', 'Fragment', 'KeepAlive', 'custom', 'customUpper', 'customUnderscore', 'nsFragment', 'nsKeepAlive'];
 const CONTENT_HOSTS = ['divHtml', 'divInnerHTML', 'pText'];
 
 function* strings(maxLen) {
@@ -38,6 +38,9 @@ function hostTag(b, host) {
     case 'custom': return { kind: 'maybeCustom', name: 'x-el', src: 'x-el' };
     case 'customUpper': return { kind: 'maybeCustom', name: 'X-Panel', src: 'X-Panel' };
     case 'customUnderscore': return { kind: 'maybeCustom', name: '_widget', src: '_widget' };
+    // the built-ins reached through a namespace import of vue take children, not slots, like their plain names
+    case 'nsFragment': b.importNs('vue', 'Vue'); return { kind: 'member', src: 'Vue.Fragment', i: b.leaf('Vue.Fragment'), fragLike: true };
+    case 'nsKeepAlive': b.importNs('vue', 'Vue'); return { kind: 'member', src: 'Vue.KeepAlive', i: b.leaf('Vue.KeepAlive'), fragLike: true };
     case 'divHtml': case 'divInnerHTML': return { kind: 'html', name: 'div', src: 'div' };
     case 'pText': return { kind: 'html', name: 'p', src: 'p' };
     default: throw new Error(host);
